@@ -76,6 +76,51 @@ fn definitions() -> Vec<(&'static str, Vec<Stmt>, usize, bool)> {
         ("parameter-named-like-caller-global", vec![Stmt::Def("FNA".into(), vec!["G".into()], bin(BinOp::Add, var("G"), var("X")))], 1, false),
         ("uses-builtin", vec![Stmt::Def("FNA".into(), vec!["X".into()], Expr::Call("ABS".into(), vec![bin(BinOp::Sub, x(), int(5))]))], 1, false),
         ("array-in-body", vec![Stmt::Def("FNA".into(), vec!["X".into()], bin(BinOp::Add, Expr::Arr("D".into(), vec![x()]), x()))], 1, false),
+        // the parameter in a later slot of a nested argument list
+        (
+            "parameter-as-second-argument-of-builtin",
+            vec![Stmt::Def("FNA".into(), vec!["X".into()], Expr::Call("LEN".into(), vec![Expr::Call("LEFT$".into(), vec![strlit("abcdefghijkl"), x()])]))],
+            1,
+            false,
+        ),
+        (
+            "parameter-as-second-argument-of-function",
+            vec![
+                Stmt::Def("FNB".into(), vec!["P".into(), "Q".into()], bin(BinOp::Add, bin(BinOp::Mul, var("P"), int(10)), var("Q"))),
+                Stmt::Def("FNA".into(), vec!["X".into()], bin(BinOp::Add, f("FNB", vec![int(1), x()]), f("FNB", vec![x(), int(2)]))),
+            ],
+            1,
+            false,
+        ),
+        (
+            "parameter-as-second-subscript",
+            vec![
+                Stmt::Let(LVal::Arr("T".into(), vec![int(1), int(2)]), int(8)),
+                Stmt::Let(LVal::Arr("T".into(), vec![int(2), int(1)]), int(6)),
+                Stmt::Def("FNA".into(), vec!["X".into()], bin(BinOp::Add, Expr::Arr("T".into(), vec![int(1), x()]), Expr::Arr("T".into(), vec![x(), int(1)]))),
+            ],
+            1,
+            false,
+        ),
+        (
+            "parameters-swapped-into-nested-call",
+            vec![
+                Stmt::Def("FNB".into(), vec!["P".into(), "Q".into()], bin(BinOp::Sub, bin(BinOp::Mul, var("P"), int(10)), var("Q"))),
+                Stmt::Def("FNA".into(), vec!["X".into(), "Y".into()], f("FNB", vec![var("Y"), x()])),
+            ],
+            2,
+            false,
+        ),
+        (
+            "three-parameters-into-builtin",
+            vec![Stmt::Def(
+                "FNA".into(),
+                vec!["X".into(), "Y".into(), "Z".into()],
+                Expr::Call("LEN".into(), vec![Expr::Call("MID$".into(), vec![strlit("abcdefghijkl"), bin(BinOp::Add, var("Z"), int(1)), bin(BinOp::Add, var("Y"), x())])]),
+            )],
+            3,
+            false,
+        ),
     ]
 }
 
@@ -130,9 +175,13 @@ enum Perturb {
     TooFewArgs,
     UndefinedFunction,
     CalledFromDirectModeAfterRun,
+    /// CLEAR between the DEF and the call: the function is gone
+    ClearBeforeCall,
+    /// a complete RUN, then RUN <call line>: the DEF has not run since the reset
+    RunAtCallLineAfterRun,
 }
 
-const PERTURBS: [Perturb; 7] = [
+const PERTURBS: [Perturb; 9] = [
     Perturb::None,
     Perturb::GlobalChangedAfterDef,
     Perturb::CallBeforeDef,
@@ -140,6 +189,8 @@ const PERTURBS: [Perturb; 7] = [
     Perturb::TooFewArgs,
     Perturb::UndefinedFunction,
     Perturb::CalledFromDirectModeAfterRun,
+    Perturb::ClearBeforeCall,
+    Perturb::RunAtCallLineAfterRun,
 ];
 
 fn judge(site: &str, prog: &Prog, direct: &[Vec<Stmt>], ctx: &mut Ctx) {
@@ -290,6 +341,11 @@ impl Sweep for Functions {
                         Perturb::CalledFromDirectModeAfterRun => {
                             lines.push(Line { num: 10, stmts: def.clone() });
                         }
+                        Perturb::ClearBeforeCall => {
+                            lines.push(Line { num: 10, stmts: def.clone() });
+                            lines.push(Line { num: 20, stmts: vec![Stmt::Clear] });
+                            lines.push(Line { num: 30, stmts: stmts.clone() });
+                        }
                         _ => {
                             lines.push(Line { num: 10, stmts: def.clone() });
                             lines.push(Line { num: 30, stmts: stmts.clone() });
@@ -302,6 +358,8 @@ impl Sweep for Functions {
                             continue;
                         }
                         judge(&site, &prog, &[run.clone(), stmts.clone()], ctx);
+                    } else if pert == Perturb::RunAtCallLineAfterRun {
+                        judge(&site, &prog, &[run.clone(), vec![Stmt::Raw("RUN 30".into())]], ctx);
                     } else {
                         judge(&site, &prog, &[run.clone()], ctx);
                     }
@@ -324,7 +382,7 @@ impl Check for C10 {
     }
     fn meta(&self, _tier: Tier) -> Meta {
         Meta {
-            bound: "12 numeric definition families (1..3 parameters; Integer / Double / default-typed parameters; bodies reading a global, a built-in, an array, another function with the same or another parameter name, three functions deep; a parameter named like a global the caller passes) x every argument tuple of a small set (constants, globals, fractional, expression) x 9 calling contexts (PRINT, print list with two calls, array subscript, FOR bound, IF condition, arithmetic with two calls, assignment to an Integer, argument of the function itself, ON..GOTO selector) x 7 perturbations (none, globals changed between DEF and call, call before the DEF line ran, one argument too many / too few, undefined function, called from direct mode after the run); sentinels X, Y, G printed afterwards; 3 string definition families x 4 arguments; DEF in direct mode; three runaway recursions (OUT OF MEMORY and the session still answers PRINT 1); parameter default typing under DEFSTR F / DEFINT X".into(),
+            bound: "17 numeric definition families (1..3 parameters; Integer / Double / default-typed parameters; bodies reading a global, a built-in, an array, another function with the same or another parameter name, three functions deep; a parameter named like a global the caller passes; parameters in the second or third slot of a nested built-in call, user-function call and array subscript) x every argument tuple of a small set (constants, globals, fractional, expression) x 9 calling contexts (PRINT, print list with two calls, array subscript, FOR bound, IF condition, arithmetic with two calls, assignment to an Integer, argument of the function itself, ON..GOTO selector) x 9 perturbations (none, globals changed between DEF and call, call before the DEF line ran, one argument too many / too few, undefined function, called from direct mode after the run, CLEAR between DEF and call, RUN then RUN <call line>); sentinels X, Y, G printed afterwards; 3 string definition families x 4 arguments; DEF in direct mode; three runaway recursions (OUT OF MEMORY and the session still answers PRINT 1); parameter default typing under DEFSTR F / DEFINT X".into(),
             rule: "a case is one program + session; compared: full transcript against the reference interpreter (local parameter scope, call-time evaluation); distinct_nontrivial = distinct expected transcripts".into(),
             states_note: "transitions = sessions compared with the reference interpreter".into(),
             assumptions: vec![
